@@ -58,6 +58,8 @@ impl DataMapRecord {
         ) {
             ctx.report("'slng' or 'dlng' tags use ScriptLangTag data");
         }
+        // a custom validation method replaces the generated recursion
+        self.data.validate_impl(ctx);
     }
 
     fn compute_data_len(&self) -> usize {
@@ -93,7 +95,19 @@ impl FontWrite for Metadata {
 }
 
 impl Validate for Metadata {
-    fn validate_impl(&self, _ctx: &mut ValidationCtx) {}
+    fn validate_impl(&self, ctx: &mut ValidationCtx) {
+        if let Metadata::ScriptLangTags(tags) = self {
+            // the tags are written as a comma-separated list, so an empty tag
+            // or a tag containing a comma would not be read back
+            for tag in tags {
+                if tag.0.is_empty() {
+                    ctx.report("ScriptLangTag must not be empty");
+                } else if tag.0.contains(',') {
+                    ctx.report(format!("ScriptLangTag must not contain ',': '{}'", tag.0));
+                }
+            }
+        }
+    }
 }
 
 impl FromObjRef<read_fonts::tables::meta::Metadata<'_>> for Metadata {
